@@ -9,6 +9,7 @@ package mcp
 import (
 	"context"
 	"encoding/json"
+	"errors"
 	"fmt"
 	"net/http"
 	"sync"
@@ -368,10 +369,13 @@ func (h *httpServerHandler) handlePostRequest(ctx context.Context, w http.Respon
 		}
 		if err := sseResponder.respond(ctx, w, r, jsonrpcResponse, session); err != nil {
 			h.logger.Errorf("Failed to send SSE success response: %v", err)
-			// Typically the result could not be encoded: the request still gets an answer.
-			errorResp := newJSONRPCErrorResponse(req.ID, ErrCodeInternal, err.Error(), nil)
-			if err := sseResponder.respond(ctx, w, r, errorResp, session); err != nil {
-				h.logger.Errorf("Failed to send SSE encode-failure response: %v", err)
+			// The result could not be encoded: the request still gets an answer. (After a failed
+			// write nothing more can be said on this response.)
+			if errors.Is(err, ErrResponseSerialization) {
+				errorResp := newJSONRPCErrorResponse(req.ID, ErrCodeInternal, err.Error(), nil)
+				if err := sseResponder.respond(ctx, w, r, errorResp, session); err != nil {
+					h.logger.Errorf("Failed to send SSE encode-failure response: %v", err)
+				}
 			}
 		}
 		return
@@ -407,10 +411,13 @@ func (h *httpServerHandler) handlePostRequest(ctx context.Context, w http.Respon
 	}
 	if err := responder.respond(respCtx, w, r, jsonrpcResponse, session); err != nil {
 		h.logger.Errorf("Failed to send success response: %v", err)
-		// Typically the result could not be encoded: the request still gets an answer.
-		errorResp := newJSONRPCErrorResponse(req.ID, ErrCodeInternal, err.Error(), nil)
-		if err := responder.respond(respCtx, w, r, errorResp, session); err != nil {
-			h.logger.Errorf("Failed to send encode-failure response: %v", err)
+		// The result could not be encoded: the request still gets an answer. (After a failed
+		// write nothing more can be said on this response.)
+		if errors.Is(err, ErrResponseSerialization) {
+			errorResp := newJSONRPCErrorResponse(req.ID, ErrCodeInternal, err.Error(), nil)
+			if err := responder.respond(respCtx, w, r, errorResp, session); err != nil {
+				h.logger.Errorf("Failed to send encode-failure response: %v", err)
+			}
 		}
 	}
 }
